@@ -494,7 +494,8 @@ def run(ck):
             if len(cand) != 1 and isinstance(lp, T.App) and lp.op == "loop" and len(lp.args) >= 3 and isinstance(lp.args[2], T.Poly):
                 # the factor accumulated one rotated site at a time: in every iteration the unitary that is looked up (the letter) and
                 # the entry that is read (outcome, input) must belong to the same site
-                body = lp.args[2]
+                # (the generic iteration: its position symbols stand for every site; the first iteration reads position 0)
+                body = lp.args[3] if len(lp.args) >= 4 and isinstance(lp.args[3], T.Poly) else lp.args[2]
                 sels = [a for a in body.all_atoms() if isinstance(a, T.App) and a.op == "select"]
                 gath = [a for a in body.all_atoms() if isinstance(a, T.App) and a.op == "index" and len(a.args[1]) == 2 and all(isinstance(q, tuple) and q and q[0] == "adv" for q in a.args[1])
                         and any(isinstance(z, T.App) and z.op == "select" for z in (a.args[0].all_atoms() if hasattr(a.args[0], "all_atoms") else []))]
